@@ -590,6 +590,15 @@ theorem C15_on_delete_matches_m2m (guard : Bool) (o : ObjId) (ho : o = 0 ∨ o =
     obsDb (some (commit sch s)) = some (true, true, none, true) := by
   rcases ho with rfl | rfl <;> cases guard <;> exact ⟨rfl, rfl, rfl⟩
 
+/-- The ranking hypothesis is decidable on a concrete store: if the executable check `isRankedB` (longest cascade path, cut at
+    `n`, strictly decreases along every cascade edge — computed by the driver for every compared history) says yes and all cascade
+    links are between existing objects, the top-level delete does not end in the model's RecursionError. -/
+theorem C15_terminates_checked (sch : Schema) (ct : ClassTable) (guard : Bool) (s : Store) (a : ObjId)
+    (hc : isRankedB sch s = true) (hin : ∀ p q, CEdge sch s p q → p < s.n ∧ q < s.n) :
+    (deleteTop sch ct guard s a).2 ≠ some .recursionError := by
+  obtain ⟨hr, hb⟩ := ranked_of_check hc hin
+  exact (C15_terminates sch ct guard s a _ hr hb).2
+
 /-- hypotheses of `C15_terminates` met non-trivially: on the parent/child graph the object id is a ranking bounded by `n` -/
 example : Ranked (sch2 (childSide true false) (parentSide true true)) (store2 false true) (fun x => x) := by
   intro p q ⟨b, hb, hh⟩
